@@ -27,6 +27,12 @@ pub struct Family {
     pub probes: &'static [&'static str],
 }
 
+impl Family {
+    pub fn wants(&self, probe: &str) -> bool {
+        self.probes.contains(&probe)
+    }
+}
+
 fn ops(list: &[&str]) -> Vec<Op> {
     list.iter().map(|s| Op::parse(s).unwrap_or_else(|e| machinery(&format!("bad op {s}: {e}")))).collect()
 }
@@ -252,6 +258,13 @@ pub fn family(name: &str) -> Family {
             rt_encs: false,
             probes: &[],
         },
+        "pke" => {
+            // C12 over histories: long-lived PKE ciphertexts decrypted again after every operation
+            let mut f = family("rotdel");
+            f.name = "pke";
+            f.probes = &["pke"];
+            f
+        }
         "disrot" => {
             // rotation meets deactivation: the initial world already holds a re-keyed right whose
             // key kept the old secret, so that disable / delete + update + prune + refresh
@@ -391,6 +404,7 @@ pub fn build(fam: &Family, hist: &[Op]) -> World {
     let mut w = World::new(&fam.enc_menu, fam.tags.clone());
     w.max_usks = fam.max_usks;
     w.rt_encs = fam.rt_encs;
+    w.pke_probes = fam.wants("pke");
     for op in &fam.init {
         w.apply(op, Mode::Replay);
     }
@@ -494,6 +508,7 @@ pub fn explore(run: &mut Run, fam: &Family, max_depth: usize, cap_secs: f64, own
         w.max_usks = fam.max_usks;
         w.rt_encs = fam.rt_encs;
         w.full_matrix = true;
+        w.pke_probes = fam.wants("pke");
         for op in &fam.init {
             w.apply(op, Mode::Check);
         }
